@@ -436,6 +436,13 @@ func (a *errAnalyzer) analyse(s *errSite) errVerdict {
 						results = append(results, result{"free", x.Pos(), ""})
 						fieldStored = true
 						state = 2
+					} else if pa, isParam := x.Addr.(*ssa.Parameter); isParam {
+						// *err = e through a parameter of type *error: handed to the caller through its out-parameter
+						if pt, ok := pa.Type().(*types.Pointer); ok && isErrorType(pt.Elem()) {
+							paths++
+							results = append(results, result{"returns-err", x.Pos(), ""})
+							state = 2
+						}
 					}
 				}
 			case *ssa.Jump:
